@@ -44,13 +44,14 @@ class CB:
         h.calls.append((h.w.now, self.idx, cookie.reg))
         if self.pending:
             op = self.pending.pop(0)
-            if op[0] == 'work':
-                # the callback does slow work: the job thread is busy for that long
-                h.busy.append((h.w.now, None))
-                h.w.sleep(op[1])
-                h.busy[-1] = (h.busy[-1][0], h.w.now)
-            else:
-                h.do(op, inside=True)
+            for sub in (op[1:] if op[0] == 'seq' else (op,)):
+                if sub[0] == 'work':
+                    # the callback does slow work: the job thread is busy for that long
+                    h.busy.append((h.w.now, None))
+                    h.w.sleep(sub[1])
+                    h.busy[-1] = (h.busy[-1][0], h.w.now)
+                else:
+                    h.do(sub, inside=True)
         return cookie.periodic
 
     def __canon__(self):
@@ -330,6 +331,19 @@ UNSUB_INSIDE = [
 ]
 
 
+# histories in which a timer is registered from inside a callback when the job thread's pass has already taken a while (the
+# callback itself did slow work first / an earlier callback of the same pass did): the new timer counts from the call of
+# add_timer, not from the beginning of the pass; judged with their look-ahead in both tiers
+SLOW_PASS = [
+    [('add', 0, 0.01, False), ('in', 0, ('seq', ('work', 0.03), ('add', 0, 0.02, False)))],
+    [('add', 2, 0.01, False), ('in', 2, ('seq', ('work', 0.03), ('add', 2, 0.02, True)))],
+    [('add', 0, 0.01, True), ('in', 0, ('seq', ('work', 0.03), ('add', 1, 0.5, False)))],
+    [('add', 0, 0.01, False), ('add', 1, 0.01, False), ('in', 0, ('work', 0.03)), ('in', 1, ('add', 1, 0.02, False))],
+    [('add', 0, 0.01, False), ('add', 2, 0.01, False), ('in', 0, ('work', 0.03)), ('in', 2, ('add', 2, 0.02, True))],
+    [('add', 1, 0.02, True), ('add', 0, 0.02, False), ('in', 1, ('work', 0.03)), ('in', 0, ('add', 0, 0.01, False))],
+]
+
+
 def alphabet(hist):
     deltas = DELTAS_Q if _MODE['tier'] == 'quick' else DELTAS_T
     A = []
@@ -344,6 +358,7 @@ def alphabet(hist):
         A.append(('in', i, ('rm', (i + 1) % NCB)))
         A.append(('in', i, ('add', i, 0.01, False)))
         A.append(('in', i, ('work', 0.03)))
+        A.append(('in', i, ('seq', ('work', 0.03), ('add', i, 0.02, False))))
     for i in range(2):
         A.append(('sub', i))
         A.append(('unsub', i))
@@ -530,7 +545,7 @@ def csig(probs):
 
 RULE = ("state = canonical form of the real ECU (timer list with deadlines relative to now on a 1 ms grid, subscriber list, "
         "pending in-callback operations) + job thread's blocked-until; transition = one operation (add_timer one-shot/periodic "
-        "with a period from the grid, remove_timer, subscribe, unsubscribe, the same issued from inside a timer callback, a message callback "
+        "with a period from the grid, remove_timer, subscribe, unsubscribe, the same issued from inside a timer callback (also after 30 ms of work in that callback / in an earlier callback of the same pass), a message callback "
         "that unsubscribes itself / its neighbour when next called, idle gap); "
         "every distinct state is judged against the reference timer list now, 0.7 s and 5.2 s later; additionally the job thread is "
         "suspended for 1 ms at every source line of its pass over three timers while another thread removes / adds a timer")
@@ -555,7 +570,7 @@ def run(tier, seed):
         for eps in (50e-6, 2e-3):
             cfg = ('cfg', eps)
             depth = 2 if quick else 3
-            roots = [[cfg]] + [[cfg] + list(h) for h in COINCIDING + UNSUB_INSIDE]
+            roots = [[cfg]] + [[cfg] + list(h) for h in COINCIDING + UNSUB_INSIDE + SLOW_PASS]
             r = mc.bfs('vf.props.c12', roots, lambda i, d=depth: d if i == 0 else 0, acc, probe=True, sig=csig)
             info['wake_latency=%g' % eps] = {'states_per_level': r['levels'], 'depth_completed': r['depth_completed'],
                                             'frontier_emptied': r['frontier_emptied'], 'alphabet': len(alphabet([cfg]))}
